@@ -154,7 +154,7 @@ def run(tier):
         ep = os.path.join(chk.work, "sched.events")
         json.dump(sched, open(sp, "w"))
         try:
-            p = subprocess.run([binary, "-mode", "schedule", "-in", sp, "-out", ep], capture_output=True, text=True, timeout=600, env=dict(os.environ, GORACE="halt_on_error=0 exitcode=0"))
+            p = subprocess.run([binary, "-mode", "schedule", "-in", sp, "-out", ep], capture_output=True, text=True, timeout=150, env=dict(os.environ, GORACE="halt_on_error=0 exitcode=0"))
             evs = vlib.read_ndjson(ep)
             if "WARNING: DATA RACE" in p.stderr:
                 evs.append(dict(op="race", hist=0))
@@ -176,6 +176,11 @@ def run(tier):
                    goroutines_spawned=sum(1 for s in shards for e in s if e["op"] == "hook" and e["ev"] == "go.spawn"))
     chk.sample(dict(schedule_from_TLC=sched_traces[0][0]))
     chk.sample(dict(hook_events=[{k: v for k, v in e.items() if k in ("ev", "enc", "a", "b", "gid")} for e in traces[0][2] if e["op"] == "hook"][:8]))
+    # A behaviour of RSCache.tla takes the lock in every call. An implementation that does not (a lock-free path for cached degrees, say) cannot
+    # be driven through it: that is not a violation of C16 - the run is still validated for mutual exclusion, cache growth and results.
+    not_imposed = [b for b in bad if b["why"] == "schedule-not-imposed"]
+    chk.cov["schedules_not_imposable"] = len(not_imposed)
+    bad = [b for b in bad if b["why"] != "schedule-not-imposed"]
     seen = set()
     for b in bad:
         idx = b["shard"]
